@@ -188,6 +188,7 @@ func genbankDBLinkParser(gb *GenBank, depth int) pars.Parser {
 		if err := fieldNameParser(state, pars.Void); err != nil {
 			return err
 		}
+		state.Clear()
 		if err := pairParser(state, result); err != nil {
 			return err
 		}
@@ -473,6 +474,7 @@ func makeGenbankOriginParser(length int) genbankSubparser {
 				return err
 			}
 			pars.Line(state, result)
+			state.Clear()
 
 			if err := state.Request(toOriginLength(length)); err != nil {
 				return pars.NewError("not enough bytes in state", state.Position())
